@@ -559,3 +559,46 @@ Proof. apply C18_skip_or_valid_any. apply hypfns_noKL. Qed.
 Lemma C18_example lgam eg (H : HypFns RNum) :
   exists logl, rootward_projection RNum (RF lgam eg) H 0 (1, 2) (3, 1) = Ok (Val (logl, (1 + 3, 2 + 1))).
 Proof. apply rootward_projection_conjugate; lra. Qed.
+
+(** ** in the closed-form cases the returned mean lies in the support of the tilted distribution *)
+Section SupportClosed.
+  Variable lgam : R -> R.
+  Variable eg : R.
+  Variable H : HypFns RNum.
+  Notation F := (RF lgam eg).
+
+  (* child at time zero: the free parent's mean is above the child *)
+  Lemma support_rootward0 a_i b_i y mu l m v : 0 < a_i + y -> 0 < mu + b_i ->
+    rootward_moments RNum F H 0 a_i b_i y mu = Ok (Val (l, m, v)) -> 0 < m /\ 0 < v.
+  Proof.
+    intros Hs Hr E. rewrite rootward0 in E by assumption. injection E as <- <- <-. split.
+    - apply Rdiv_lt_0_compat; assumption.
+    - apply Rdiv_lt_0_compat; [assumption|apply Rmult_lt_0_compat; assumption].
+  Qed.
+
+  Lemma support_twin a b y mu : 0 < a + y -> 0 < b + 2 * mu ->
+    0 < snd (fst (twin_moments RNum F H a b y mu)) /\ 0 < snd (twin_moments RNum F H a b y mu).
+  Proof.
+    intros Hs Hr. rewrite twin_moments_closed. cbn [fst snd]. split.
+    - apply Rdiv_lt_0_compat; assumption.
+    - apply Rdiv_lt_0_compat; [assumption|apply Rmult_lt_0_compat; assumption].
+  Qed.
+
+  Lemma support_edge t_i t_j : t_j < t_i ->
+    t_j < fst (mutation_edge_moments RNum F H t_i t_j) < t_i /\ 0 < snd (mutation_edge_moments RNum F H t_i t_j).
+  Proof.
+    intros Hlt. rewrite edge_moments_uniform. cbn [fst snd]. split; [lra|].
+    assert (0 < (t_i - t_j) * (t_i - t_j)) by (apply Rmult_lt_0_compat; lra). lra.
+  Qed.
+
+  (* mutation above a child at time zero: between the child and the parent's mean *)
+  Lemma support_mutation_rootward0 a_i b_i y mu m v : 0 < a_i + y -> 0 < mu + b_i ->
+    mutation_rootward_moments RNum F H 0 a_i b_i y mu = Ok (Val (m, v)) ->
+    0 < m < (a_i + y) / (mu + b_i) /\ 0 < v.
+  Proof.
+    intros Hs Hr E. rewrite mutation_rootward_mixture, rootward0 in E by assumption. injection E as <- <-.
+    assert (Hm : 0 < (a_i + y) / (mu + b_i)) by (apply Rdiv_lt_0_compat; assumption).
+    split; [lra|]. apply mutation_mixture_var_pos.
+    apply Rdiv_lt_0_compat; [assumption|apply Rmult_lt_0_compat; assumption].
+  Qed.
+End SupportClosed.
